@@ -9,10 +9,9 @@ for name in sorted(os.listdir(os.path.join(HERE, "seeded"))):
     if not os.path.exists(p):
         continue
     m = json.load(open(p))
-    notes = m.get("notes_from_author", "")
-    first = re.sub(r"\s+", " ", notes.strip().split("\n\n")[0] if notes else "")[:260]
+    first = (m.get("what_it_does", "") + " -- needs: " + m.get("needs_to_manifest", "")).replace("|", "/")
     viol = (m.get("violations_reported") or [{}])[0].get("detail", "")
     viol = re.sub(r"\|", "/", viol)[:150]
     det = "yes" if m.get("detected") else ("NO (exit %s)" % m.get("check_exit_code"))
     hist = re.sub(r"\|", "/", m.get("history", ""))[:260]
-    print(f"| {name} | {m.get('property')} | {re.sub(chr(124), '/', first)} | {det}: {viol} | {hist} |")
+    print(f"| {name} | {m.get('property')} | {first} | {det}: {viol} | {hist} |")
